@@ -76,6 +76,15 @@ def sha(path):
         return hashlib.sha256(f.read()).hexdigest()
 
 
+def bucket_kw(j):
+    """metadata of the j-th legacy bucket: from the second bucket on, one of hostname / client / type is the
+    EMPTY string -- a legal value that has to arrive as it is (seeded: `value or "unknown"`)"""
+    kw = dict(type=f"type-{j}", client=f"client-{j}", hostname=f"host-{j}", created=datetime(2017, 1 + j, 2, 3, 4, 5, 678000, tzinfo=timezone(timedelta(hours=2 * j))))
+    if j >= 1:
+        kw[("hostname", "client", "type")[(j - 1) % 3]] = ""
+    return kw
+
+
 def run_config(root, cfg):
     """cfg: dict(bids, nev, bdata, name, testing, other) -> list of problems"""
     from aw_datastore.storages import peewee as pw
@@ -94,7 +103,7 @@ def run_config(root, cfg):
             # contiguous in the legacy table; seeded: itertools.groupby over rows in insertion order)
             per = {}
             for j, bid in enumerate(bids):
-                kw = dict(type=f"type-{j}", client=f"client-{j}", hostname=f"host-{j}", created=datetime(2017, 1 + j, 2, 3, 4, 5, 678000, tzinfo=timezone(timedelta(hours=2 * j))))
+                kw = bucket_kw(j)
                 if cfg["name"]:
                     kw["name"] = f"name of {bid}"
                 if cfg["bdata"] is not None:
@@ -109,7 +118,7 @@ def run_config(root, cfg):
             pw._db.close()
             return want, path
         for j, bid in enumerate(bids):
-            kw = dict(type=f"type-{j}", client=f"client-{j}", hostname=f"host-{j}", created=datetime(2017, 1 + j, 2, 3, 4, 5, 678000, tzinfo=timezone(timedelta(hours=2 * j))))
+            kw = bucket_kw(j)
             if cfg["name"]:
                 kw["name"] = f"name of {bid}"
             if cfg["bdata"] is not None:
